@@ -34,12 +34,21 @@ Model/RunSrv.vos Model/RunSrv.vok Model/RunSrv.required_vos: Model/RunSrv.v Base
 Model/Run.vo Model/Run.glob Model/Run.v.beautified Model/Run.required_vo: Model/Run.v Base/Bytes.vo Model/Resp.vo Model/RunBase.vo Model/RunSrv.vo
 Model/Run.vio: Model/Run.v Base/Bytes.vio Model/Resp.vio Model/RunBase.vio Model/RunSrv.vio
 Model/Run.vos Model/Run.vok Model/Run.required_vos: Model/Run.v Base/Bytes.vos Model/Resp.vos Model/RunBase.vos Model/RunSrv.vos
+Spec/Collections.vo Spec/Collections.glob Spec/Collections.v.beautified Spec/Collections.required_vo: Spec/Collections.v Base/Bytes.vo Model/Resp.vo Model/Types.vo
+Spec/Collections.vio: Spec/Collections.v Base/Bytes.vio Model/Resp.vio Model/Types.vio
+Spec/Collections.vos Spec/Collections.vok Spec/Collections.required_vos: Spec/Collections.v Base/Bytes.vos Model/Resp.vos Model/Types.vos
 Proofs/BytesFacts.vo Proofs/BytesFacts.glob Proofs/BytesFacts.v.beautified Proofs/BytesFacts.required_vo: Proofs/BytesFacts.v Base/Bytes.vo
 Proofs/BytesFacts.vio: Proofs/BytesFacts.v Base/Bytes.vio
 Proofs/BytesFacts.vos Proofs/BytesFacts.vok Proofs/BytesFacts.required_vos: Proofs/BytesFacts.v Base/Bytes.vos
 Proofs/RespFacts.vo Proofs/RespFacts.glob Proofs/RespFacts.v.beautified Proofs/RespFacts.required_vo: Proofs/RespFacts.v Base/Bytes.vo Model/Resp.vo Proofs/BytesFacts.vo
 Proofs/RespFacts.vio: Proofs/RespFacts.v Base/Bytes.vio Model/Resp.vio Proofs/BytesFacts.vio
 Proofs/RespFacts.vos Proofs/RespFacts.vok Proofs/RespFacts.required_vos: Proofs/RespFacts.v Base/Bytes.vos Model/Resp.vos Proofs/BytesFacts.vos
+Proofs/ListsFacts.vo Proofs/ListsFacts.glob Proofs/ListsFacts.v.beautified Proofs/ListsFacts.required_vo: Proofs/ListsFacts.v Base/Bytes.vo Model/Resp.vo Model/Types.vo Model/Strings.vo Model/Lists.vo Spec/Collections.vo Proofs/BytesFacts.vo
+Proofs/ListsFacts.vio: Proofs/ListsFacts.v Base/Bytes.vio Model/Resp.vio Model/Types.vio Model/Strings.vio Model/Lists.vio Spec/Collections.vio Proofs/BytesFacts.vio
+Proofs/ListsFacts.vos Proofs/ListsFacts.vok Proofs/ListsFacts.required_vos: Proofs/ListsFacts.v Base/Bytes.vos Model/Resp.vos Model/Types.vos Model/Strings.vos Model/Lists.vos Spec/Collections.vos Proofs/BytesFacts.vos
 Props/C20.vo Props/C20.glob Props/C20.v.beautified Props/C20.required_vo: Props/C20.v Base/Bytes.vo Model/Resp.vo Proofs/BytesFacts.vo Proofs/RespFacts.vo
 Props/C20.vio: Props/C20.v Base/Bytes.vio Model/Resp.vio Proofs/BytesFacts.vio Proofs/RespFacts.vio
 Props/C20.vos Props/C20.vok Props/C20.required_vos: Props/C20.v Base/Bytes.vos Model/Resp.vos Proofs/BytesFacts.vos Proofs/RespFacts.vos
+Props/C03.vo Props/C03.glob Props/C03.v.beautified Props/C03.required_vo: Props/C03.v Base/Bytes.vo Model/Resp.vo Model/Types.vo Model/Strings.vo Model/Lists.vo Spec/Collections.vo Proofs/BytesFacts.vo Proofs/ListsFacts.vo
+Props/C03.vio: Props/C03.v Base/Bytes.vio Model/Resp.vio Model/Types.vio Model/Strings.vio Model/Lists.vio Spec/Collections.vio Proofs/BytesFacts.vio Proofs/ListsFacts.vio
+Props/C03.vos Props/C03.vok Props/C03.required_vos: Props/C03.v Base/Bytes.vos Model/Resp.vos Model/Types.vos Model/Strings.vos Model/Lists.vos Spec/Collections.vos Proofs/BytesFacts.vos Proofs/ListsFacts.vos
